@@ -129,7 +129,10 @@ theorem facts_one_transaction :
       = ["if len(entities) == 0 {", "ds.store.database.NewTransaction", "ds.StoreEntitiesWithTransaction", "ds.store.commitIDTxn", "txn.Commit", "ds.updateDataset"]
     ∧ skeleton_ExecuteTransaction.dropWhile (· != "s.database.NewTransaction")
       = ["s.database.NewTransaction", "defer {", "txn.Discard", "}", "for {", "ds.StoreEntitiesWithTransaction", "ret-on-err", "}",
-         "s.commitIDTxn", "ret-on-err", "txn.Commit", "ret-on-err", "for {", "if !ok {", "return", "}", "ds.(*Dataset).updateDataset", "ret-on-err", "}", "return"]
+         "s.commitIDTxn", "ret-on-err", "txn.Commit", "ret-on-err",
+         -- core.Dataset's lock (when the transaction took it) is released after the data commit and before the counter updates
+         "if coreLocked {", "datasets[\"core.Dataset\"].WriteLock.Unlock", "}",
+         "for {", "if !ok {", "return", "}", "ds.(*Dataset).updateDataset", "ret-on-err", "}", "return"]
     ∧ errChecked "ds.StoreEntitiesWithTransaction" skeleton_StoreEntities = true
     ∧ errChecked "ds.store.commitIDTxn" skeleton_StoreEntities = true
     ∧ errChecked "txn.Commit" skeleton_StoreEntities = true
